@@ -57,6 +57,27 @@ user, 1..4 distributed peers, 5..8 other users), connection ids are creation ord
   "fault" has two more modes: "late" (the child's socket accepts the bytes, then drain() raises) and "timeout"
         (drain() of that child never returns: write time-out after 10 virtual seconds).
 
+  ["closing", victim, [trigger, hold], [op…]]
+        CARRIERS HANDLED WHILE A CONNECTION IS BETWEEN ITS CLOSING AND ITS CLOSED NOTIFICATION (modelled for the trigger
+        "eof": `SOp.closeBegin` of Model/DistSearch.lean … `Op.closed`). `victim` is a distributed connection id (a child,
+        the parent, a candidate) or ["p", n] (the newest peer connection user n opened to us). The connection starts to
+        close, the library's `disconnect()` is kept suspended between `set_state(CLOSING)` and `set_state(CLOSED)`, the
+        listed ops (carriers, closes of siblings, joins) are issued one by one, the loop run to quiescence after each:
+        trigger "eof"  : the remote end closes; the library's reader meets EOF and disconnects;
+        trigger "werr" : the next write of the library on that socket raises (the first listed carrier sets it off);
+        hold "release" : `wait_closed()` of the library-side socket blocks (unsent data for a stalled peer) and is released
+                         at the end of the op;
+        hold "expire"  : `wait_closed()` never returns: the library's DISCONNECT_TIMEOUT (5 s) ends the wait;
+        hold "listener": an application listener of ConnectionStateChangedEvent(CLOSING) for that connection suspends
+                         (the transport is not even closed yet) and is released at the end of the op.
+  ["in", n, "o"] ["pconn", n, "o"] ["join", n, mode, [op…], "o"]
+        THROUGH THE OBFUSCATED LISTENING PORT: the remote end sends an obfuscated PeerInit and from then on behaves as the
+        protocol says for the connection type — a distributed ("D") connection is read and written in the clear, a peer
+        ("P") connection stays obfuscated. Case fields `aport` ("plain" | "both" | "obf": the ports the server reports for
+        the asking users) and `prefer_obf` (settings.network.peer.obfuscate) decide whether the library's own connection to
+        an asker goes to its obfuscated port (obfuscated PeerInit and reply). The remote ends decode with the harness's OWN
+        implementation of the obfuscation: what is judged is what a protocol-following peer can read from the bytes.
+
 After every op the loop is run to quiescence. For a search op the observation is: the DistributedSearchRequest
 frames (and any other frame) each distributed remote received, the PeerSearchReply frames (and anything else)
 each user's peer endpoint received, the SearchRequestReceivedEvents, any other frame the server received
@@ -87,7 +108,11 @@ USERS_DIR = [2]          # users of the USERS-mode directory
 SEARCH_CODE = 3
 
 
-COMPOSITE = ('burst', 'fault', 'join', 'rfault')
+COMPOSITE = ('burst', 'fault', 'join', 'rfault', 'closing')
+OBF_PORT = LISTEN_PORT + 1           # the obfuscated listening port
+ASKER_PORT, ASKER_OBF_PORT = 2235, 2236
+CLOSING_TRIGGERS = ('eof', 'werr')
+CLOSING_HOLDS = ('release', 'expire', 'listener')
 FAULT_MODES = ('fail', 'block', 'late', 'timeout')
 RFAULT_MODES = ('fail-before', 'fail-mid', 'late-reset', 'timeout', 'slow-timeout', 'block')
 RFAULT_NOT_ACCEPTED = ('fail-before', 'fail-mid')      # the socket did not accept the whole reply
@@ -99,14 +124,53 @@ def _flat_ops(op):
     if op[0] == 'fault':
         return [op[3]] + list(op[4])
     if op[0] == 'join':
-        return [['in', op[1]]] + list(op[3])
+        return [['in', op[1]] + (['o'] if len(op) > 4 and op[4] == 'o' else [])] + list(op[3])
     if op[0] == 'rfault':
         return [op[2]] + list(op[3])
+    if op[0] == 'closing':
+        return list(op[3])
     return [op]
 
 
-def asker_addr(n: int):
-    return (f'10.0.2.{n}', 2235)
+def _via_obf(op) -> bool:
+    """["in", n, "o"] / ["pconn", n, "o"]: through the obfuscated listening port"""
+    return len(op) > 2 and op[2] == 'o'
+
+
+def asker_addr(n: int, obf: bool = False):
+    return (f'10.0.2.{n}', ASKER_OBF_PORT if obf else ASKER_PORT)
+
+
+# ------------------------------------------------------------------------------------------------
+# the harness's own implementation of the peer obfuscation (what a protocol-following remote end does): a message is
+# preceded by a 4 byte key; every 4 byte block of the message (length header included) is XOR-ed with the key, which is
+# rotated left by one bit before each block
+# ------------------------------------------------------------------------------------------------
+
+def _obf_blocks(key: int, data: bytes) -> tuple[int, bytes]:
+    out = bytearray()
+    for i in range(0, len(data), 4):
+        key = ((key << 1) | (key >> 31)) & 0xFFFFFFFF
+        kb = key.to_bytes(4, 'little')
+        out += bytes(b ^ kb[j] for j, b in enumerate(data[i:i + 4]))
+    return key, bytes(out)
+
+
+def obfuscate(data: bytes, key: int) -> bytes:
+    return key.to_bytes(4, 'little') + _obf_blocks(key, data)[1]
+
+
+async def read_frame_obf(reader) -> Optional[bytes]:
+    """header+body (de-obfuscated) of the next obfuscated frame, None on EOF"""
+    import struct
+    try:
+        key = int.from_bytes(await reader.readexactly(4), 'little')
+        key, hdr = _obf_blocks(key, await reader.readexactly(4))
+        (n,) = struct.unpack('<I', hdr)
+        _, body = _obf_blocks(key, await reader.readexactly(n))
+        return hdr + body
+    except (asyncio.IncompleteReadError, ConnectionError):
+        return None
 
 
 # ------------------------------------------------------------------------------------------------
@@ -228,19 +292,25 @@ class _Asker:
         self.inits: list = []
         self.frames: list = []
         self.frame_conn: list = []      # per frame: index of the connection it arrived on
+        self.conn_obf: list = []        # per connection: obfuscated (it goes through an obfuscated port)
         self.nconn = 0
 
     async def handler(self, reader, writer):
         await self.serve(reader, writer, True)
 
-    async def serve(self, reader, writer, expect_init: bool):
+    async def handler_obf(self, reader, writer):
+        await self.serve(reader, writer, True, obf=True)
+
+    async def serve(self, reader, writer, expect_init: bool, obf: bool = False):
+        """a peer ("P") connection: every message on a connection through an obfuscated port is obfuscated"""
         from vlib.simserver import read_frame
         from aioslsk.protocol import messages as m
         idx = self.nconn
         self.nconn += 1
+        self.conn_obf.append(obf)
         first = expect_init
         while True:
-            frame = await read_frame(reader)
+            frame = await (read_frame_obf(reader) if obf else read_frame(reader))
             if frame is None:
                 return
             if first:
@@ -305,7 +375,10 @@ async def _scenario(loop, case: dict):
                 n = unum(msg.username)
                 if isinstance(n, int):
                     ip, port = asker_addr(n)
-                    writer.write(m.GetPeerAddress.Response(msg.username, ip, port, 0, 0).serialize())
+                    aport = case.get('aport', 'plain')
+                    writer.write(m.GetPeerAddress.Response(
+                        msg.username, ip, 0 if aport == 'obf' else port,
+                        0 if aport == 'plain' else 1, 0 if aport == 'plain' else ASKER_OBF_PORT).serialize())
         server.on_request = on_request
         fn.endpoints[SERVER_ADDR] = Endpoint('accept', server.handler)
         blocked = {uname(n): BlockingFlag.SEARCHES for n in BLOCKED_SEARCH}
@@ -313,7 +386,8 @@ async def _scenario(loop, case: dict):
         settings = Settings(
             credentials={'username': uname(ME), 'password': 'pw'},
             network={'server': {'hostname': SERVER_ADDR[0], 'port': SERVER_ADDR[1]},
-                     'listening': {'port': LISTEN_PORT, 'obfuscated_port': 0},
+                     'listening': {'port': LISTEN_PORT, 'obfuscated_port': OBF_PORT},
+                     'peer': {'obfuscate': bool(case.get('prefer_obf', False))},
                      'upnp': {'enabled': False}},
             users={'friends': {uname(n) for n in FRIENDS}, 'blocked': blocked})
         bus = EventBus()
@@ -359,7 +433,9 @@ async def _scenario(loop, case: dict):
                 fn.endpoints[peer_addr(n)] = Endpoint('accept', make_out_handler(n))
             askers[n] = _Asker(n, bool(case.get('asker_closes', True)))
             fn.endpoints[asker_addr(n)] = Endpoint('accept', askers[n].handler)
+            fn.endpoints[asker_addr(n, True)] = Endpoint('accept', askers[n].handler_obf)
             asker_of_addr[asker_addr(n)] = n
+            asker_of_addr[asker_addr(n, True)] = n
 
         # ---- observation points on the library-side sockets -------------------------------------------------
         # logical clock: orders "the library began to write our branch level to connection c" against "the bytes of
@@ -389,11 +465,18 @@ async def _scenario(loop, case: dict):
 
         def reply_ticket(data):
             """ticket of the PeerSearchReply these bytes are, None for anything else"""
-            try:
-                msg = m.PeerMessage.deserialize_request(bytes(data))
-            except Exception:
-                return None
-            return msg.ticket if isinstance(msg, m.PeerSearchReply.Request) else None
+            data = bytes(data)
+            forms = [data]
+            if len(data) >= 8:             # a peer connection through an obfuscated port: key + obfuscated frame
+                forms.append(_obf_blocks(int.from_bytes(data[:4], 'little'), data[4:])[1])
+            for form in forms:
+                try:
+                    msg = m.PeerMessage.deserialize_request(form)
+                except Exception:
+                    continue
+                if isinstance(msg, m.PeerSearchReply.Request):
+                    return msg.ticket
+            return None
 
         def watch_peer_writer(lw, n):
             """library-side socket of a peer connection with user n: the armed reply fault (op "rfault") strikes the
@@ -472,6 +555,11 @@ async def _scenario(loop, case: dict):
                     'incoming': [r.cid for r in w.remotes if not r.requested],
                     'told_at': dict(told_at),
                     'names': {r.cid: r.name for r in w.remotes},
+                    'via_obf': [r.cid for r in w.remotes if getattr(r, 'via_obf', False)],
+                    # bytes a protocol-following remote end could not consume as frames (it waits for the rest of a
+                    # "message" whose length field is noise)
+                    'unread': {r.cid: len(r.reader._buffer) for r in w.remotes
+                               if remote_open(r) and len(r.reader._buffer)},
                     'session': state['session'] is not None,
                     'dn_session': dn._session is not None, 'sm_session': sm._session is not None}
 
@@ -505,7 +593,7 @@ async def _scenario(loop, case: dict):
                         replies.append({'to': n, 'ticket': f.ticket, 'username': unum(f.username),
                                         'visible': sorted(file_key(x) for x in f.results),
                                         'locked': sorted(file_key(x) for x in (f.locked_results or [])),
-                                        'conn': a.frame_conn[i]})
+                                        'conn': a.frame_conn[i], 'obf': a.conn_obf[a.frame_conn[i]]})
                     else:
                         pother[n] = pother.get(n, 0) + 1
             srv = [type(x).__qualname__ if not isinstance(x, tuple) else 'undecodable'
@@ -594,24 +682,34 @@ async def _scenario(loop, case: dict):
                 return 'ok'
             if k == 'in':
                 n = op[1]
-                rd, wr = await fn.connect_in(LISTEN_PORT, remote_addr=(peer_addr(n)[0], 40000 + len(w.remotes)))
+                obf = _via_obf(op)
+                rd, wr = await fn.connect_in(OBF_PORT if obf else LISTEN_PORT,
+                                             remote_addr=(peer_addr(n)[0], 40000 + len(w.remotes)))
                 watch_dist_writer(wr.peer, len(w.remotes))      # wr.peer = the library-side socket of this pair
                 if state.get('gate_next_in') is not None:
                     state['gate_next_in'](wr.peer)
                     state['gate_next_in'] = None
                 r = _Remote(len(w.remotes), n, False)
+                r.via_obf = obf
                 r.reader, r.writer = rd, wr
                 w.remotes.append(r)
                 r.task = asyncio.ensure_future(r.pump())
-                wr.write(m.PeerInit.Request(uname(n), PeerConnectionType.DISTRIBUTED, 0).serialize())
+                init = m.PeerInit.Request(uname(n), PeerConnectionType.DISTRIBUTED, 0).serialize()
+                # through the obfuscated port only the PeerInit is obfuscated: a distributed connection is read (`pump`)
+                # and written in the clear from then on
+                wr.write(obfuscate(init, 0x9E3779B9 ^ (r.cid * 0x01000193)) if obf else init)
                 return 'ok'
             if k == 'pconn':
                 n = op[1]
+                obf = _via_obf(op)
                 a = askers[n]
-                rd, wr = await fn.connect_in(LISTEN_PORT, remote_addr=(asker_addr(n)[0], 41000 + len(fn.pairs)))
+                rd, wr = await fn.connect_in(OBF_PORT if obf else LISTEN_PORT,
+                                             remote_addr=(asker_addr(n)[0], 41000 + len(fn.pairs)))
                 watch_peer_writer(wr.peer, n)
-                w.keep.append(asyncio.ensure_future(a.serve(rd, wr, False)))
-                wr.write(m.PeerInit.Request(uname(n), PeerConnectionType.PEER, 0).serialize())
+                w.keep.append(asyncio.ensure_future(a.serve(rd, wr, False, obf=obf)))
+                state.setdefault('pconns', {}).setdefault(n, []).append(wr)
+                init = m.PeerInit.Request(uname(n), PeerConnectionType.PEER, 0).serialize()
+                wr.write(obfuscate(init, 0x85EBCA6B ^ (len(fn.pairs) * 0x01000193)) if obf else init)
                 return 'ok'
             return issue_sync(op)
 
@@ -678,7 +776,8 @@ async def _scenario(loop, case: dict):
                     ungate(gate)
                 status = 'fault:' + ','.join(sts) + ('' if ok_v else ':nofault')
             elif op[0] == 'join':
-                _, n, mode, during = op
+                _, n, mode, during = op[:4]
+                in_op = _flat_ops(op)[0]               # ["in", n] or ["in", n, "o"]
                 newc = len(w.remotes)
                 pending = list(during)
                 sts, gate = [], []
@@ -697,7 +796,7 @@ async def _scenario(loop, case: dict):
                 else:
                     raise ValueError(f'unknown join mode {mode!r}')
                 try:
-                    first = await issue(['in', n])
+                    first = await issue(in_op)
                     await settle()
                     triggers.pop(newc, None)
                     while pending:                 # blocking modes; or nothing was written to the new connection
@@ -737,6 +836,64 @@ async def _scenario(loop, case: dict):
                 await advance(15.0)                # a second attempt made a little later is seen too
                 extra['fault_hit'] = f['hit']
                 status = 'rfault:' + ','.join(sts)
+            elif op[0] == 'closing':
+                _, victim, mode, during = op
+                trigger, hold = mode
+                if trigger not in CLOSING_TRIGGERS or hold not in CLOSING_HOLDS:
+                    raise ValueError(f'unknown closing mode {mode!r}')
+                rw = None                              # the remote end's socket of the victim connection
+                if isinstance(victim, int):
+                    if 0 <= victim < len(w.remotes) and remote_open(w.remotes[victim]):
+                        rw = w.remotes[victim].writer
+                elif isinstance(victim, list) and len(victim) == 2 and victim[0] == 'p':
+                    mine = [x for x in state.get('pconns', {}).get(victim[1], []) if not x._closed and not x.peer._closed]
+                    if mine and trigger == 'eof':
+                        rw = mine[-1]
+                else:
+                    raise ValueError(f'bad closing victim {victim!r}')
+                lib_conn = None
+                if rw is not None:
+                    lib_conn = next((pc for pc in list(net.peer_connections) + [p.connection for p in dn.distributed_peers]
+                                     if pc._writer is rw.peer), None)
+                    if lib_conn is None or lib_conn.state != ConnectionState.CONNECTED:
+                        rw = lib_conn = None
+                sts, seen, release = [], [], asyncio.Event()
+                extra['first_new'] = len(w.remotes)
+                try:
+                    if rw is not None:
+                        lw = rw.peer
+                        if hold == 'listener':
+                            async def closing_listener(event: ConnectionStateChangedEvent, conn=lib_conn, ev=release):
+                                if event.connection is conn and event.state == ConnectionState.CLOSING:
+                                    await ev.wait()
+                            w.keep.append(closing_listener)
+                            bus.register(ConnectionStateChangedEvent, closing_listener)
+                        else:
+                            async def held_wait_closed(ev=release):
+                                await ev.wait()          # unsent data for a stalled peer: the transport is not gone yet
+                            lw.wait_closed = held_wait_closed
+                        if trigger == 'eof':
+                            rw.close()
+                            await settle()
+                        else:
+                            lw.fail_after = len(lw.sent)
+                    for sub in during:
+                        seen.append(lib_conn is not None and lib_conn.state == ConnectionState.CLOSING)
+                        sts.append(await issue(sub))
+                        await settle()
+                    extra['closing_open_at_end'] = lib_conn is not None and lib_conn.state == ConnectionState.CLOSING
+                    if rw is not None and hold == 'expire':
+                        await advance(6.0)               # DISCONNECT_TIMEOUT (5 s) ends the wait for the transport
+                finally:
+                    release.set()
+                    if rw is not None and trigger == 'werr' and not rw.peer._closed:
+                        rw.peer.fail_after = None        # no write met the faulty socket: the fault is lifted
+                # the parent going away: `_unset_parent` announces our new position to the server and to the children when
+                # CLOSED is reported (C13's business, not "another frame written because of the carrier")
+                extra['closing_parent'] = isinstance(victim, int) and victim == before['parent']
+                extra['closing_seen'] = seen
+                extra['closing_victim'] = None if lib_conn is None else lib_conn.connection_type
+                status = 'closing:' + ','.join(sts) + ('' if rw is not None else ':novictim')
             else:
                 status = await issue(op)
             await settle()
@@ -744,7 +901,7 @@ async def _scenario(loop, case: dict):
             snap['status'] = status
             snap['before'] = before
             mk = (mk[0] + [0] * (len(w.remotes) - len(mk[0])), mk[1], mk[2], mk[3])
-            snap.update(delta(mk, extra.get('joined', len(w.remotes))))
+            snap.update(delta(mk, extra.get('joined', extra.get('first_new', len(w.remotes)))))
             snap.update(extra)
             snap['inj'] = list(inj)
             snap['is_search'] = any(o[0] == 'search' for o in _flat_ops(op))
@@ -788,7 +945,7 @@ def _canon(s: dict) -> str:
     es = sorted(f'{e[0]}:{_hx(e[1])}:{e[2]}' for e in s['events'])
     st = s['status'].split(':')[0] if s['status'].startswith(COMPOSITE) else s['status']
     extra = ''
-    if s['is_search'] and (s['other'] or s['pother'] or s['srv']):
+    if s['is_search'] and not s.get('closing_parent') and (s['other'] or s['pother'] or s['srv']):
         extra = f" X={sorted(s['other'].items())}{sorted(s['pother'].items())}{s['srv']}"
     p = '-' if s['parent'] is None else str(s['parent'])
     return (f"{st} F={_lst(sorted(fs), ';')} R={_lst(rs, ';')} E={_lst(es, ';')} P={p} "
@@ -849,6 +1006,10 @@ def _monitor(case: dict, trace: list) -> list[Violation]:
     In addition (as before) the connections the library itself lists as children before the op are required — for
     composite ops with faults / membership changes only those that are still listed and open at the end.
     Nobody may receive a carrier more often than it was sent to us, nor with other user / ticket / query.
+    RECEIVED means: decoded by a remote end that follows the protocol for its connection (a distributed connection is read in
+    the clear after the PeerInit also when it came through the obfuscated listening port; a peer connection through an
+    obfuscated port is read obfuscated) — a message object queued by the library, or bytes the remote end cannot read, are no
+    delivery.
 
     REPLIES are counted at the asking user over ALL of its connections: per carrier with matches exactly one (when the first
     write of the reply was not accepted whole by the socket — "rfault fail-before / fail-mid" — none or one), and over the whole
@@ -898,10 +1059,10 @@ def _monitor(case: dict, trace: list) -> list[Violation]:
         logged_in = b['session'] and b['dn_session'] and b['sm_session']
         kids_b, kids_a = list(b['children']), list(s['children'])
         incoming, told, open_end = set(s.get('incoming', [])), s.get('told_at', {}), set(s['open'])
-        if op[0] in ('fault', 'join', 'rfault'):
+        if op[0] in ('fault', 'join', 'rfault', 'closing'):
             # membership changes / faults while the carrier is being passed on: of the connections the library lists
             # as children, those are required that were listed when the op began AND still are at the end, open (a
-            # child whose own write failed or that was closed meanwhile is exempt)
+            # child whose own write failed or that was closed meanwhile — the victim of a "closing" op — is exempt)
             listed = [c for c in kids_b if c in kids_a and c in open_end and c in b['open']]
         else:
             listed = [c for c in kids_b if c in b['open']]
@@ -966,6 +1127,13 @@ def _monitor(case: dict, trace: list) -> list[Violation]:
                                  f'had a faulty socket [{op[2]}] meanwhile)')
                     elif op[0] == 'join':
                         what += ' (it was a child when the op began and still is; another child was being added)'
+                    elif op[0] == 'closing':
+                        what += (f' (it was a child when the op began and still is, its connection is open; connection '
+                                 f'{op[1]} was between its CLOSING and CLOSED notification [{"/".join(op[2])}] meanwhile)')
+                    if c in s.get('via_obf', ()):
+                        what += (f' [it joined through the obfuscated listening port: after the PeerInit a distributed '
+                                 f'connection is read in the clear; {s.get("unread", {}).get(c, 0)} bytes that are no '
+                                 f'readable message are waiting at its end]')
                 elif any(x in want_all for x in extra):
                     sig, what = 'C14-fanout-duplicate', 'received the search request more than once'
                 else:
@@ -1009,6 +1177,14 @@ def _monitor(case: dict, trace: list) -> list[Violation]:
                     if op[0] == 'rfault':
                         what += (f' (the first write of the reply met a faulty socket [{op[1]}'
                                  f'{"" if s.get("fault_hit") is not None else ", not reached"}])')
+                    elif op[0] == 'closing':
+                        what += (f' (connection {op[1]} was between its CLOSING and CLOSED notification '
+                                 f'[{"/".join(op[2])}] meanwhile)')
+                    if case.get('aport', 'plain') != 'plain' or any(
+                            o[0] == 'pconn' and _via_obf(o) for oo in case['ops'][:k + 1] for o in _flat_ops(oo)):
+                        what += (f' [obfuscated ports in play: the server reports "{case.get("aport", "plain")}" port(s) for '
+                                 f'askers, network.peer.obfuscate={bool(case.get("prefer_obf", False))}; a peer connection through '
+                                 f'an obfuscated port is read obfuscated]')
                     add(sig, what, k, observed=got_r, required=want_r)
     return vs
 
@@ -1025,7 +1201,19 @@ CODES = [3, 3, 3, 3, 0, 4, 93, 255]
 def _gen_case(rng: random.Random, kind: Optional[str] = None) -> dict:
     peers = [1, 2, 3, 4]
     kind = kind or rng.choice(['root', 'root', 'parent', 'parent', 'parent', 'churn', 'churn', 'sources', 'burst',
-                               'nosession', 'fault', 'fault', 'join', 'join', 'join', 'rfault', 'rfault'])
+                               'nosession', 'fault', 'fault', 'join', 'join', 'join', 'rfault', 'rfault',
+                               'closing', 'closing', 'closing'])
+    # how the remote ends reach us / we reach the askers: a quarter of the joins and of the askers' own connections go
+    # through the obfuscated listening port; the server reports a plain port, both, or only an obfuscated one for askers
+    p_obf = rng.choice([0.0, 0.25, 0.25, 0.6])
+    aport = rng.choice(['plain', 'plain', 'plain', 'both', 'both', 'obf'])
+    prefer_obf = rng.random() < 0.5
+
+    def inop(n):
+        return ['in', n, 'o'] if rng.random() < p_obf else ['in', n]
+
+    def pconn(n):
+        return ['pconn', n, 'o'] if rng.random() < p_obf else ['pconn', n]
     layout = rng.choice([0, 1, 1, 2, 2, 2, 3])
     ops: list = []
     nconn = 0
@@ -1075,7 +1263,7 @@ def _gen_case(rng: random.Random, kind: Optional[str] = None) -> dict:
     def children(n):
         for p in rng.sample(peers, n):
             child_names.append(p)
-            do(['in', p])
+            do(inop(p))
 
     def get_parent(also_candidate: bool):
         """returns (parent conn id, candidate conn id or None). The parent is a proposed peer that announced level
@@ -1101,7 +1289,7 @@ def _gen_case(rng: random.Random, kind: Optional[str] = None) -> dict:
         do(['session'])
     if kind in ('root', 'parent', 'churn', 'sources', 'burst') and rng.random() < 0.2:
         for _ in range(rng.choice([1, 1, 2])):         # askers that already have a peer connection to us (re-used
-            do(['pconn', rng.choice([2, 5, 5, 8])])    # for the reply; two of them: still exactly one reply)
+            do(pconn(rng.choice([2, 5, 5, 8])))    # for the reply; two of them: still exactly one reply)
     nchild = rng.choice([0, 1, 2, 3, 3])
     if kind == 'root':
         children(nchild)
@@ -1129,7 +1317,7 @@ def _gen_case(rng: random.Random, kind: Optional[str] = None) -> dict:
             if x < 0.45 and nconn:
                 do(['close', conn()])
             elif x < 0.8:
-                do(['in', rng.choice(peers)])
+                do(inop(rng.choice(peers)))
             elif x < 0.9:
                 do(['reset'])
                 par = None
@@ -1162,7 +1350,7 @@ def _gen_case(rng: random.Random, kind: Optional[str] = None) -> dict:
         k = rng.choice([2, 3, 3, 4])
         first = nconn
         for nm in rng.sample([x for x in names if x != pname], k):
-            do(['in', nm])
+            do(inop(nm))
         kids = list(range(first, first + k))
         victim = rng.choice([kids[0], kids[0], kids[-1], kids[len(kids) // 2], rng.choice(kids)])
         others = [c for c in kids if c != victim]
@@ -1177,7 +1365,7 @@ def _gen_case(rng: random.Random, kind: Optional[str] = None) -> dict:
             elif x < 0.85:
                 during = [['close', rng.choice(others)], ['close', victim]]
             elif x < 0.93:
-                during = [['in', rng.choice([n for n in names if n != pname])]]
+                during = [inop(rng.choice([n for n in names if n != pname]))]
         elif x < 0.2:
             during = [['close', rng.choice(others)]]
         src = par if par is not None else 's'
@@ -1199,7 +1387,7 @@ def _gen_case(rng: random.Random, kind: Optional[str] = None) -> dict:
         first = nconn
         pool = [x for x in names if x != pname]
         for nm in rng.sample(pool, k):
-            do(['in', nm])
+            do(inop(nm))
         kids = list(range(first, first + k))
         if rng.random() < 0.15:
             do(['stats', ME, 5120 * rng.choice([k, k + 1])])      # the joining peer takes the last slot / finds none
@@ -1215,9 +1403,9 @@ def _gen_case(rng: random.Random, kind: Optional[str] = None) -> dict:
             elif x < 0.27:
                 during.insert(rng.randrange(len(during) + 1), ['close', newc])
             elif x < 0.37:
-                during.insert(rng.randrange(len(during) + 1), ['in', rng.choice(pool)])
+                during.insert(rng.randrange(len(during) + 1), inop(rng.choice(pool)))
         joiner = rng.choice(pool) if rng.random() < 0.93 else rng.choice(names)
-        do(['join', joiner, mode, during])
+        do(['join', joiner, mode, during] + (['o'] if rng.random() < p_obf else []))
         for _ in range(rng.choice([0, 1, 1, 2])):
             do(search(src, foreign=True))
     elif kind == 'rfault':
@@ -1240,7 +1428,7 @@ def _gen_case(rng: random.Random, kind: Optional[str] = None) -> dict:
             return ['search', src, carrier, 3, rng.choice(UNKNOWNS), asker,
                     rng.choice(TICKETS) if ticket is None else ticket, q if query is None else query]
         for _ in range(rng.choice([0, 0, 1, 1, 2])):
-            do(['pconn', asker])                       # the asker has peer connections to us already
+            do(pconn(asker))                          # the asker has peer connections to us already
         if rng.random() < 0.3:
             do(ask())                                  # an earlier reply (opens a connection when there is none)
         mode = rng.choice(RFAULT_MODES)
@@ -1250,12 +1438,69 @@ def _gen_case(rng: random.Random, kind: Optional[str] = None) -> dict:
         if x < 0.2:
             during = [ask(ticket=first[6] + 1 if first[6] < 2 ** 32 - 1 else 5)]
         elif x < 0.3:
-            during = [['pconn', asker]]
+            during = [pconn(asker)]
         elif x < 0.4:
             during = [ask(ticket=first[6] + 1 if first[6] < 2 ** 32 - 1 else 5, query=rng.choice(QUERIES[:9]))]
         do(['rfault', mode, first, during])
         if rng.random() < 0.5:
             do(ask(ticket=first[6] + 2 if first[6] < 2 ** 32 - 2 else 6))
+    elif kind == 'closing':
+        # carriers arrive while a connection (mostly a child that is not the last of the list) is between its CLOSING and
+        # its CLOSED notification
+        names = [1, 2, 3, 4, 5, 8]
+        par, pname = None, None
+        if rng.random() < 0.5:
+            pname = rng.choice(peers)
+            par = nconn
+            do(['pp', [pname]])
+            do(['level', par, rng.choice([1, 2, 3])])
+            do(['root', par, rng.choice([5, 6])])
+        k = rng.choice([2, 3, 3, 4])
+        first = nconn
+        pool = [x for x in names if x != pname]
+        for nm in rng.sample(pool, k):
+            do(inop(nm))
+        kids = list(range(first, first + k))
+        src = par if par is not None else 's'
+        asker = rng.choice([2, 5, 5, 8])
+        trigger = 'eof'
+        x = rng.random()
+        if x < 0.62:
+            victim = rng.choice(kids[:-1])
+            if rng.random() < 0.25:
+                trigger = 'werr'
+        elif x < 0.72:
+            victim = kids[-1]
+        elif x < 0.80 and par is not None:
+            victim, src = par, 's'                     # the parent is going away: only the server can still deliver
+        else:
+            victim = ['p', asker]
+            layout = rng.choice([1, 2, 2])
+            for _ in range(rng.choice([1, 1, 2])):
+                do(pconn(asker))
+        hold = rng.choice(CLOSING_HOLDS)
+        if trigger == 'werr' and rng.random() < 0.8:
+            hold = 'listener'          # (a failed write cancels its own task on the way: only a listener keeps CLOSING open)
+
+        def carrier():
+            c = search(src, foreign=rng.random() < 0.85)
+            if not isinstance(victim, int) and rng.random() < 0.8:
+                c[5], c[7] = asker, rng.choice(QUERIES[:9])        # the user whose own connection is closing asks
+            return c
+        during = [carrier() for _ in range(rng.choice([1, 1, 2, 3]))]
+        if trigger == 'werr':
+            during[0] = search(src, foreign=True)      # forwarded for sure: its write to the victim sets the close off
+        x = rng.random()
+        others = [c for c in kids if c != victim]
+        if x < 0.15 and others:
+            during.insert(rng.randrange(1, len(during) + 1), ['close', rng.choice(others)])
+        elif x < 0.27:
+            during.insert(rng.randrange(1, len(during) + 1), inop(rng.choice(pool)))
+        elif x < 0.32:
+            during.insert(rng.randrange(1, len(during) + 1), pconn(asker))
+        do(['closing', victim, [trigger, hold], during])
+        for _ in range(rng.choice([0, 1, 1, 2])):
+            do(search(src if victim != par else 's', foreign=True))
     elif kind == 'nosession':
         children(nchild)
         if up and rng.random() < 0.7:
@@ -1275,10 +1520,11 @@ def _gen_case(rng: random.Random, kind: Optional[str] = None) -> dict:
         elif x < 0.7:
             do(['close', conn()])
         elif x < 0.85:
-            do(['in', rng.choice(peers)])
+            do(inop(rng.choice(peers)))
         else:
             do(['lost'] if up else ['session'])
-    return {'ops': ops[:14], 'kind': kind, 'layout': layout, 'asker_closes': rng.random() < 0.6}
+    return {'ops': ops[:14], 'kind': kind, 'layout': layout, 'asker_closes': rng.random() < 0.6,
+            'aport': aport, 'prefer_obf': prefer_obf}
 
 
 # ------------------------------------------------------------------------------------------------
@@ -1303,6 +1549,8 @@ def _model_lines(case: dict) -> tuple[list[str], list[int]]:
     def line(o):
         if o[0] == 'pp':
             return 'pp ' + ' '.join(str(n) for n in o[1])
+        if o[0] in ('in', 'pconn'):
+            return f'{o[0]} {o[1]}'                # (the port it came through makes no difference to the model)
         if o[0] == 'search':
             return ' '.join(['search'] + [str(x) for x in o[1:7]] + [_hx(o[7])])
         return ' '.join(str(x) for x in o)
@@ -1311,6 +1559,11 @@ def _model_lines(case: dict) -> tuple[list[str], list[int]]:
             # the add of the joining peer is suspended (`addbegin`) while the listed ops are handled; it ends by
             # resuming (`addend`) or by the library's write time-out closing the connection (`addtimeout`)
             ls = [f'addbegin {op[1]}'] + [line(o) for o in op[3]] + ['addtimeout' if op[2][0] == 'timeout' else 'addend']
+        elif op[0] == 'closing' and isinstance(op[1], int):
+            # the connection is reported CLOSING (`closebegin`), the listed ops are handled, it is reported CLOSED (`close`)
+            ls = [f'closebegin {op[1]}'] + [line(o) for o in op[3]] + [f'close {op[1]}']
+        elif op[0] == 'closing':
+            ls = [f'pconn {op[1][1]}'] + [line(o) for o in op[3]]     # a peer connection closing: no effect on the tree
         else:
             ls = [line(o) for o in _flat_ops(op)]
         out += ls
@@ -1320,7 +1573,7 @@ def _model_lines(case: dict) -> tuple[list[str], list[int]]:
 
 def _monitor_only(case) -> bool:
     """faulty / slow sockets: the model is atomic per op and assumes every write goes through"""
-    return any(op[0] in ('fault', 'rfault') for op in case['ops'])
+    return any(op[0] in ('fault', 'rfault') or (op[0] == 'closing' and op[2][0] == 'werr') for op in case['ops'])
 
 
 def _eval_case(case):
@@ -1381,6 +1634,43 @@ WITNESSES = {
         'ops': [['session'], ['pconn', 5],
                 ['rfault', 'slow-timeout', ['search', 's', 'server', 3, 49, 5, 77, 'rock'], []]],
         'kind': 'witness', 'layout': 1, 'asker_closes': True},
+    # carriers handled while a child is between CLOSING and CLOSED (the property holds on HEAD: the entry stays in `children`
+    # until CLOSED, `send_message` refuses to write on it, its siblings are served)
+    'closing-stalled-first-child': {
+        'ops': [['session'], ['in', 1], ['in', 2], ['in', 3],
+                ['closing', 0, ['eof', 'release'], [['search', 's', 'server', 3, 49, 5, 77, 'rock']]],
+                ['search', 's', 'server', 3, 49, 5, 78, 'rock']],
+        'kind': 'witness', 'layout': 1, 'asker_closes': True},
+    'closing-middle-child-disconnect-timeout': {
+        'ops': [['session'], ['pp', [4]], ['level', 0, 1], ['root', 0, 5], ['in', 1], ['in', 2], ['in', 3],
+                ['closing', 2, ['eof', 'expire'], [['search', 0, 'dist', 3, 49, 5, 77, 'rock'],
+                                                    ['search', 0, 'legacy', 3, 49, 8, 78, 'one']]]],
+        'kind': 'witness', 'layout': 1, 'asker_closes': True},
+    'closing-listener-suspended': {
+        'ops': [['session'], ['in', 1], ['in', 2],
+                ['closing', 0, ['eof', 'listener'], [['search', 's', 'server', 3, 49, 5, 77, 'rock'], ['in', 3],
+                                                      ['search', 's', 'server', 3, 49, 5, 78, 'rock']]]],
+        'kind': 'witness', 'layout': 1, 'asker_closes': True},
+    'closing-after-failed-write': {
+        'ops': [['session'], ['in', 1], ['in', 2], ['in', 3],
+                ['closing', 0, ['werr', 'listener'], [['search', 's', 'server', 3, 49, 5, 77, 'rock'],
+                                                      ['search', 's', 'server', 3, 49, 5, 78, 'rock']]]],
+        'kind': 'witness', 'layout': 1, 'asker_closes': True},
+    'closing-askers-own-connection': {
+        'ops': [['session'], ['in', 1], ['pconn', 5],
+                ['closing', ['p', 5], ['eof', 'release'], [['search', 's', 'server', 3, 49, 5, 77, 'rock']]]],
+        'kind': 'witness', 'layout': 1, 'asker_closes': False},
+    # through the obfuscated ports (the property holds on HEAD: a "D" connection is plain after its PeerInit, a "P"
+    # connection stays obfuscated)
+    'obfuscated-port-child-and-asker': {
+        'ops': [['session'], ['in', 1], ['in', 2, 'o'], ['pconn', 5, 'o'],
+                ['search', 's', 'server', 3, 49, 5, 77, 'rock'], ['search', 's', 'server', 3, 49, 8, 78, 'one']],
+        'kind': 'witness', 'layout': 1, 'asker_closes': False, 'aport': 'obf', 'prefer_obf': False},
+    'obfuscated-port-join-below-parent': {
+        'ops': [['session'], ['pp', [4]], ['level', 0, 1], ['root', 0, 5], ['in', 1, 'o'],
+                ['join', 2, ['block'], [['search', 0, 'dist', 3, 49, 5, 77, 'rock']], 'o'],
+                ['search', 0, 'legacy', 3, 49, 8, 78, 'one']],
+        'kind': 'witness', 'layout': 1, 'asker_closes': True, 'aport': 'both', 'prefer_obf': True},
     'fanout-child-write-fails-late': {
         'ops': [['session'], ['in', 1], ['in', 2], ['in', 3],
                 ['fault', 1, 'late', ['search', 's', 'server', 3, 49, 5, 77, 'rock'], []]],
@@ -1428,8 +1718,19 @@ class C14(Property):
             'library opens — fails before a byte is accepted / is accepted and then reset / accepted and drain() never '
             'returns (write time-out, bytes delivered at once or flushed at close) / blocks and is released; 0-2 open '
             'peer connections of the asker, a second carrier or a new connection meanwhile; 15 virtual seconds observed '
-            'afterwards]); a case is non-trivial when some carrier was forwarded to a child or answered; '
-            'distinct = distinct canonical (ops, layout)')
+            'afterwards], '
+            'closing = 1-3 carriers handled WHILE A CONNECTION IS BETWEEN ITS CLOSING AND ITS CLOSED NOTIFICATION [2-4 children, '
+            'the victim mostly a child that is not the last of the list, also the last child, the parent, or a peer connection '
+            'of the asking user; the remote end closes (or, monitor only, a write of the library fails) and disconnect() is '
+            'kept suspended: wait_closed() of the socket blocks and is released / never returns (DISCONNECT_TIMEOUT, 5 virtual '
+            'seconds) / a listener of the CLOSING event suspends; a sibling closes or a peer joins meanwhile; modelled: '
+            'SOp.closeBegin … Op.closed], '
+            'obfuscated ports [in every family 0 / 25 / 60 % of the joins and of the askers\' own connections go through the '
+            'obfuscated listening port (obfuscated PeerInit; a D connection is then read in the clear, a P connection '
+            'obfuscated, by the harness\'s own codec), the server reports a plain / both / only an obfuscated port for the '
+            'askers and network.peer.obfuscate is on or off]); '
+            'a case is non-trivial when some carrier was forwarded to a child or answered; '
+            'distinct = distinct canonical (ops, layout, asker ports, obfuscation preference)')
     assumptions = [
         'every asking user is reachable: the server answers GetPeerAddress and the direct peer connection '
         'succeeds (connect_mode race; the indirect attempt stays unanswered and is cancelled)',
@@ -1453,13 +1754,26 @@ class C14(Property):
         'a fake socket delivers what write() accepted (at once, or at close when the asker is "slow"); drain() of a socket '
         'closed cleanly meanwhile returns normally (asyncio flow control); virtual time only advances in the time-out modes '
         '(< 30 s per history, below the 60 s peer read time-out)',
+        'a remote end follows the protocol: it decodes what it receives in the form its connection has — a distributed '
+        'connection in the clear after the PeerInit (whichever listening port it used), a peer connection obfuscated iff it '
+        'goes through an obfuscated port; bytes it cannot decode are not a delivery. The obfuscation codec itself is C01\'s: '
+        'the harness uses its own implementation of it',
+        'a connection between its CLOSING and CLOSED notification ("closing" op) ends closed: it is exempt like every '
+        'connection that closes during an op; demanded is that the OTHER children (listed before and after, open) receive '
+        'each carrier exactly once and the asker its one reply (over another connection when its own one is closing). '
+        'wait_closed() of a fake socket returns when the harness releases it (a real transport: when its buffer is flushed or '
+        'the connection is lost)',
         'C13 assumptions for the tree part (debug.search_for_parent, reachable potential parents)',
         '"searches that originate from the logged-in user" is read on the session\'s user name; without a session '
         'nothing is demanded for own-name carriers',
     ]
     modelled = ('distributed.py: _on_server_search_request, _on_distributed_search_request, '
                 '_on_distributed_server_search_request, send_messages_to_children, and the suspension point of '
-                '_add_child (children.append before the awaited sends: SOp.addBegin / addEnd); search/manager.py: the three '
+                '_add_child (children.append before the awaited sends: SOp.addBegin / addEnd), the suspension point of '
+                'DataConnection.disconnect between the CLOSING and the CLOSED notification with send_message refusing to write '
+                'meanwhile (SOp.closeBegin, SState.closing / sent), the wire form of a connection after its initialisation '
+                '(Network._finalize_peer_connection / PeerConnection.set_connection_state: table obfAfterInit, read off the code '
+                'behaviourally); search/manager.py: the three '
                 'carrier handlers and _query_shares_and_reply (session / own name / search-blocked / no-match '
                 'guards, reply fields, SearchRequestReceivedEvent); tree state = Model/Dist.lean (C13). '
                 'Exercised, not modelled: Network.send_peer_messages / get_peer_connection / '
@@ -1533,7 +1847,17 @@ class C14(Property):
                 continue
             tr = r['trace']
             if any(s['fwd'] or s['replies'] for s in tr):
-                res.nontrivial_keys.add(common.sha([c['ops'], c.get('layout', 1)]))
+                res.nontrivial_keys.add(common.sha([c['ops'], c.get('layout', 1), c.get('aport', 'plain'),
+                                                    bool(c.get('prefer_obf', False))]))
+            res.count('asker-ports:%s/%s' % (c.get('aport', 'plain'), 'prefer-obf' if c.get('prefer_obf') else 'prefer-plain'))
+            for op, s in zip(c['ops'], tr):
+                for o in _flat_ops(op):
+                    if o[0] in ('in', 'pconn') and _via_obf(o):
+                        res.count(f'op:{o[0]}-via-obfuscated-port')
+                if any(cid in s.get('via_obf', ()) for cid in s['fwd']):
+                    res.count('event:forwarded-to-a-child-of-the-obfuscated-port')
+                if any(x.get('obf') for x in s['replies']):
+                    res.count('event:answered-over-an-obfuscated-connection')
             for op, s in zip(c['ops'], tr):
                 if op[0] == 'join':
                     res.count('join-mode:' + str(op[2][0]))
@@ -1550,6 +1874,17 @@ class C14(Property):
                         res.count('event:replies-over-several-connections')
                 elif op[0] == 'fault':
                     res.count('fault-mode:' + str(op[2]))
+                elif op[0] == 'closing':
+                    res.count('closing-mode:' + '/'.join(op[2]))
+                    res.count('closing-victim:' + ('none' if s.get('closing_victim') is None else
+                                                   ('child' if op[1] in s['before']['children'] else
+                                                    'parent' if op[1] == s['before']['parent'] else
+                                                    'asker' if not isinstance(op[1], int) else 'candidate')))
+                    n_in = sum(1 for o, seen in zip(op[3], s.get('closing_seen') or []) if seen and o[0] == 'search')
+                    if n_in:
+                        res.count('event:carrier-handled-between-closing-and-closed', n_in)
+                    if isinstance(op[1], int) and op[1] in s['before']['children'][:-1] and n_in and s['fwd']:
+                        res.count('event:forwarded-past-a-closing-child')
                 if any(o[0] == 'search' for o in _flat_ops(op)):
                     b = s['before']
                     res.count('search-state:children=%d' % len(b['children']))
@@ -1583,6 +1918,13 @@ class C14(Property):
             if len(res.samples) < 3 and 4 <= len(c['ops']) <= 9 and c['kind'] not in ('witness', 'corpus') and \
                     any(s['replies'] for s in tr):
                 res.samples.append({'case': c, 'impl': r['lines']})
+        # what the round-5 families are there for has to be reached (a note, not a verdict: a library in which CLOSING and
+        # CLOSED are reported in one step, or without an obfuscated port, has no such window / connection)
+        for key, what in (('event:forwarded-past-a-closing-child', 'no carrier was forwarded past a child between CLOSING and CLOSED'),
+                          ('event:forwarded-to-a-child-of-the-obfuscated-port', 'no carrier was forwarded to a child of the obfuscated port'),
+                          ('event:answered-over-an-obfuscated-connection', 'no reply travelled over an obfuscated connection')):
+            if res.evaluations >= 1000 and not res.distribution.get(key):
+                res.notes.append(f'coverage: {what} in {res.evaluations} cases')
         return res
 
     def replay(self, case):
